@@ -81,6 +81,11 @@ theorem turn_effect (fuel : Nat) (p : Proc) (k : List Bytes) :
       · simp
       · have := ih { p with pending := rest }
         simpa using this
+    · rename_i ts rest hp
+      split
+      · simp
+      · have := ih { p with pending := rest }
+        simpa using this
     · rename_i t rest hp
       split
       · simp
@@ -105,5 +110,20 @@ theorem fresh_cache_no_mount (fuel : Nat) (p : Proc) (t : Bytes) (rest : List Ac
     (turn (fuel + 2) (turn (fuel + 1) p k).1 (turn (fuel + 1) p k).2).2 = k := by
   have hm : t ∈ k := by simpa using hk
   simp [turn, hp, hm]
+
+/-- chroot into a layer whose own mounts the freshly read table all shows performs no further
+    kernel interaction at all: no mount call and no second reading (two turns leave the table
+    as it is and the process finished) -/
+theorem chroot_mounted_no_mount (fuel : Nat) (p : Proc) (layers : List (List Bytes)) (k : List Bytes)
+    (hp : p.pending = chrootChainActs layers) (hk : ∀ x, x ∈ layers.getLast?.getD [] → x ∈ k) :
+    (turn (fuel + 2) (turn (fuel + 1) p k).1 k).2 = k ∧
+    (turn (fuel + 2) (turn (fuel + 1) p k).1 k).1.pending = [] := by
+  have h1 : turn (fuel + 1) p k =
+      ({ p with cache := k, pending := [.doneIfCached (layers.getLast?.getD [])] ++
+          layers.flatMap fun ts => ts.map .ensure ++ [.probe] }, k) := by
+    simp [turn, hp, chrootChainActs]
+  rw [h1]
+  have hc : (∀ x, x ∈ layers.getLast?.getD [] → x ∈ k) = True := eq_true hk
+  simp [turn, hc]
 
 end Lc.Props.C20
